@@ -489,7 +489,8 @@ impl ser::SerializeSeq for SeqSerializer<'_> {
     }
 
     fn end(self) -> Result<usize, Error> {
-        match self.se.seq_type {
+        // See `ser::SeqSerializer::end`
+        match self.se.seq_type.take() {
             None | Some(SequenceType::List) => {
                 list_size(self.cumulated_size, &self.se.is_array_element)
                     .map_err(|_| Error::too_long())
